@@ -18,5 +18,9 @@ def run(ctx):
                        "non-trivial = a constrained scenario in which the real scheduler placed something")
     ctx.assumptions += ["topology constraints: one topology object (1-3 levels, nodes missing labels), required level on the pod group; sub-group level and preferred levels are not generated; NodePorts, volume and DRA constraints are not generated",
                         "the spec restates the upstream filter semantics (InterPodAffinity incl. the self-affinity bootstrap rule) independently"]
-    n = 400 if ctx.quick else 10000
+    n = 1600 if ctx.quick else 16000
     st_cluster.run_stage(ctx, PREFIXES, [("constr", n * 2 // 3), ("topo", n // 3)], nontrivial_fn=nontrivial)
+
+
+def replay(ctx, obj):
+    st_cluster.replay_stage(ctx, obj, PREFIXES)
